@@ -375,7 +375,7 @@ func mutate(t *rapid.T, it *Item, data []byte) ([]byte, string) {
 	case "seglen":
 		s := segs[rapid.IntRange(0, len(segs)-1).Draw(t, "seg")]
 		l := s.size - 2
-		nl := rapid.SampledFrom([]int{0, 1, 2, 3, l - 1, l + 1, l + 2, 0x7FFF, 0xFFFF, len(out)}).Draw(t, "len")
+		nl := rapid.SampledFrom([]int{0, 1, 2, 3, 4, l - 1, l + 1, l + 2, 0x7FFF, 0x8000, 0xFFFD, 0xFFFE, 0xFFFE, 0xFFFF, len(out), len(out) - s.off - 2}).Draw(t, "len")
 		if s.off+3 < len(out) {
 			out[s.off+2], out[s.off+3] = byte(nl>>8), byte(nl)
 		}
@@ -972,7 +972,15 @@ func TestHeaders(t *testing.T) {
 			} else {
 				s = append(s, 0, 63, 0)
 			}
-			s = append(s, rapid.SampledFrom([][]byte{nil, {0}, {0xAA, 0x55}, {0xFF, 0x00, 0x12}}).Draw(t, "ecs")...)
+			// entropy-coded data: nothing, a few bytes, or long stretches of 1 bits / 0 bits in the
+			// family's stuffing convention (JPEG-LS run mode climbs its run index on 1 bits;
+			// Huffman decoders meet their longest codes)
+			ecs := rapid.SampledFrom([][]byte{nil, {0}, {0xAA, 0x55}, {0xFF, 0x00, 0x12}, {0xFF, 0x7F}, {0xFF, 0x00}, {0x00}}).Draw(t, "ecs")
+			rep := rapid.SampledFrom([]int{1, 1, 4, 8, 40, 300}).Draw(t, "ecsrep")
+			for k := 0; k < rep; k++ {
+				s = append(s, ecs...)
+			}
+			desc += fmt.Sprintf(",ecs%xx%d", ecs, rep)
 		}
 		s = append(s, 0xFF, 0xD9)
 		desc += fmt.Sprintf(",sof%X,P%d,hv%s", sof, prec, hv)
@@ -1067,4 +1075,96 @@ func TestPairBytes(t *testing.T) {
 		}
 	}
 	core.ExhaustiveDone("two header bytes of equal value (a byte and its nearest equal partners within the first 300 bytes) set to the same new value, for every pool stream", int64(n))
+}
+
+// TestJ2KFields enumerates the semantic range of every field of the COD and QCD segments of
+// each JPEG 2000 pool stream, one field at a time: Scod 0..7, progression 0..5 and 255, layers,
+// multiple-component transform 0..2, levels 0..7 and 32/33, code-block exponents 0..15, all
+// 128 code-block style bytes (the six classic style bits and the HT bit), transform 0..2,
+// precinct bytes, Sqcd styles and guard bits, and each step-size exponent.
+func TestJ2KFields(t *testing.T) {
+	shard, shards := core.EnvInt("VERIF_SHARD", 0), max(1, core.EnvInt("VERIF_SHARDS", 1))
+	n := 0
+	names := make([]string, 0, len(pool))
+	for _, it := range pool {
+		names = append(names, it.Name)
+	}
+	sort.Strings(names)
+	rng := func(a, b int) []int {
+		var v []int
+		for i := a; i <= b; i++ {
+			v = append(v, i)
+		}
+		return v
+	}
+	for _, name := range names {
+		it := byName[name]
+		if it.Family != "j2k" || (len(name) > 7 && name[:7] == "fixture" && !core.Thorough()) {
+			continue
+		}
+		d := it.Data
+		type edit struct {
+			off  int
+			vals []int
+			what string
+		}
+		var edits []edit
+		for i := 0; i+12 < len(d) && i < 600; i++ {
+			if d[i] != 0xFF {
+				continue
+			}
+			switch d[i+1] {
+			case 0x52: // COD: Lcod(2) Scod prog layers(2) mct levels xcb ycb style transform [precincts]
+				l := int(d[i+2])<<8 | int(d[i+3])
+				edits = append(edits, edit{i + 4, rng(0, 7), "Scod"}, edit{i + 5, append(rng(0, 5), 255), "prog"}, edit{i + 6, []int{0, 1, 255}, "layersHi"}, edit{i + 7, []int{0, 1, 2, 3, 255}, "layersLo"},
+					edit{i + 8, rng(0, 2), "mct"}, edit{i + 9, append(rng(0, 7), 32, 33), "levels"}, edit{i + 10, rng(0, 15), "xcb"}, edit{i + 11, rng(0, 15), "ycb"},
+					edit{i + 12, rng(0, 127), "style"}, edit{i + 13, rng(0, 2), "transform"})
+				for k := 14; k < 2+l && i+k < len(d) && k < 22; k++ {
+					edits = append(edits, edit{i + k, []int{0x00, 0x01, 0x10, 0x11, 0x22, 0x5F, 0xF5, 0xFF}, "precinct"})
+				}
+			case 0x5C: // QCD: Lqcd(2) Sqcd SPqcd...
+				l := int(d[i+2])<<8 | int(d[i+3])
+				sq := []int{}
+				for g := 0; g < 8; g++ {
+					for st := 0; st < 4; st++ {
+						sq = append(sq, g<<5|st)
+					}
+				}
+				edits = append(edits, edit{i + 4, sq, "Sqcd"})
+				for k := 5; k < 2+l && i+k < len(d) && k < 5+12; k++ {
+					edits = append(edits, edit{i + k, []int{0, 8, 0x40, 0x88, 0xF8, 0xFF}, "SPqcd"})
+				}
+			}
+		}
+		entries := it.Entries[:1]
+		if len(it.Entries) > 1 {
+			entries = it.Entries[:2]
+		}
+		for _, ed := range edits {
+			for _, v := range ed.vals {
+				if ed.off >= len(d) || int(d[ed.off]) == v {
+					continue
+				}
+				for _, e := range entries {
+					n++
+					if n%shards != shard {
+						continue
+					}
+					in := append([]byte(nil), d...)
+					in[ed.off] = byte(v)
+					inf := it.Info
+					c := &Case{Entry: e, Parent: it.Name, Muts: []string{fmt.Sprintf("j2kfield:%s@%d=%d", ed.what, ed.off, v)}, Input: in, Info: &inf}
+					if len(e) < 6 || e[:6] != "codec:" {
+						c.Info = nil
+					}
+					o := Check(c)
+					if o.Fail != nil {
+						core.Eval(t, ID, "exhaustive", c, Check)
+					}
+					core.RecordLight(uint64(n)<<8|4, o.NonTrivial, "enum-j2kfield")
+				}
+			}
+		}
+	}
+	core.ExhaustiveDone("every COD / QCD field of every JPEG 2000 pool stream over its semantic range, one field at a time (all 128 code-block style bytes)", int64(n))
 }
